@@ -39,10 +39,10 @@ Definition run (ops : list fsop) (d : dir) : dir := fold_left apply ops d.
 Definition ops_old (path tmp bak : name) (new : content) : list fsop :=
   [Create tmp; Write tmp new; Close tmp; Chmod tmp; Rename path bak; Rename tmp path; Remove bak].
 
-(* rewriteFile after the repair: fixed temp name (truncated if a stale one exists), write,
-   close, chmod, one rename over the target. *)
+(* rewriteFile after the repair: fixed temp name; whatever a killed run left under it is unlinked
+   (it may be write-protected), then create, write, close, chmod, one rename over the target. *)
 Definition ops_fixed (path tmp : name) (new : content) : list fsop :=
-  [Create tmp; Write tmp new; Close tmp; Chmod tmp; Rename tmp path].
+  [Remove tmp; Create tmp; Write tmp new; Close tmp; Chmod tmp; Rename tmp path].
 
 (* the operations that change names or contents (what the syscall trace is compared on) *)
 Definition content_op (o : fsop) : bool :=
